@@ -56,9 +56,9 @@ def gen(tier, seed):
     add("mixed_array", "c04-mixed-array", "mixed_array(u1, u2, u3)", ["pre: 0 <= u1 <= 10 and 0 <= u2 <= 10 and 0 <= u3 <= 10"],
         "arrays built from quantities written in different unit systems (quantity objects, text, bare numbers; node volumes with per-node units; sample times) keep every element's physical value, for every triple of catalogue systems",
         "u1: int, u2: int, u3: int", viol="an explicit-unit quantity inside an array loses its physical value")
-    add("default_tmax", "c04-default-tmax", "default_tmax(u1, u3, form)", ["pre: 0 <= u1 <= 10 and 0 <= u3 <= 10 and 0 <= form <= 2"],
-        "t_max left at its default is the last sample time as a physical quantity, for sample times written in any catalogue system (list of quantities / quantity array / dictionary) under any script system: in the script, after a dictionary round trip and at the ABI",
-        "u1: int, u3: int, form: int", viol="the default t_max is not the last sample time when the sample times carry their own units")
+    add("default_tmax", "c04-default-tmax", "default_tmax(u1, u3, form, g)", ["pre: 0 <= u1 <= 10 and 0 <= u3 <= 10 and 0 <= form <= 2 and 0 <= g <= 1"],
+        "t_max left at its default is the last sample time as a physical quantity, for sample times written in any catalogue system (list of quantities / quantity array / dictionary) under any script system: in the script, after a dictionary round trip and at the ABI (grid and graph set-up routines)",
+        "u1: int, u3: int, form: int, g: int", viol="the default t_max is not the last sample time when the sample times carry their own units")
     add("output", "c04-output", "output_scaling(eu, opt)", ["pre: 0 <= eu <= 10 and 0 <= opt <= 2"], "engine output is reported in the script's units with the same SI value (every catalogue system, every engine kind)", "eu: int, opt: int")
     return "\n".join(L), conds
 
